@@ -155,8 +155,9 @@ def gen_putfile(out):
                 main.append("SBlocks %s" % reader_var[1])
                 d_var = v
                 continue
-        if isinstance(st, ast.If) and U(st.test) == "targetfile.parent() != self.targetdir" \
-                and len(st.body) >= 1 and isinstance(st.body[-1], ast.Raise) and not st.orelse:
+        mg = re.fullmatch(r"(\w+)\.parent\(\) != self\.targetdir", U(st.test)) if isinstance(st, ast.If) else None
+        if mg and roles.obj.get(mg.group(1)) == "Final" and len(st.body) >= 1 and isinstance(st.body[-1], ast.Raise) \
+                and not st.orelse:
             guard_at = i
             continue
         # if tmpfile.islink(): tmpfile.remove()      (never write through a pre-existing symlink)
